@@ -3,6 +3,16 @@ NOTES = ('All checks go through ./check, which first runs ./setup.sh (idempotent
 T_BASE = ('trusted: CPython 3.12, z3, the /verif/vf proxies+models+loader (conformance-tested against the real bitarray and the native '
           'package on every run), hashlib digests as uninterpreted functions; Python ints are mathematical (exact)')
 CHECKS = {
+ 'C01': dict(category='proof',
+             text='Cell.__init__ and the accessors (hash, get_hash(l), get_depth(l), calculate_representation_hash, __eq__, __hash__) are '
+                  'proved against the TON representation (vf/spec/cell.py) for data of every length 8q+m (opaque, symbolic q) and 0..4 '
+                  'ABSTRACT children of which only the class invariant is known (symbolic hash, symbolic depth 0..1023): so the result '
+                  'holds for every DAG below, and by structural induction for every DAG; raises iff depth would reach 1024. Every '
+                  'construction route (builder, slice after reads, copy, conversions) is proved to yield the specification hash of the '
+                  'abstract (bits, refs) it denotes and to own its containers. The BoC parse route is carried by C03 (per-cell decode).',
+             note=T_BASE + '; SHA-256 is an uninterpreted deterministic function: equal inputs are recognised by bit-string equality',
+             technique='contracts on the real functions, symbolic execution over all paths with abstract children (structural induction), z3 (LIA + EUF digests)',
+             design_ref='DESIGN.md §5 C01'),
  'C18': dict(category='proof',
              text='Unbounded proof for every byte string: VCs generated from the AST of the real crc16/crc32c (tables, loop body, init, '
                   'final xor, byte order) and discharged by z3 in the bit-vector theory: each table entry, and the loop body for ALL '
